@@ -14,6 +14,7 @@ from fractions import Fraction
 from pathlib import Path
 from typing import Any, Dict, List, Optional, Tuple
 
+from . import c19_access as A
 from .common import Run, bool_s, frac_s, guarded, list_s
 
 META = {
@@ -29,27 +30,52 @@ META = {
     "by field as the code computes them (equivalence, eq=>hash, unequal=>different token, clone keeps token and "
     "equality), their constructors/normalisers (Resolution, res_, shape_, Shape2d==tuple, roi_tiles / "
     "GeoboxTiles(box, how)), and composition with the C04 / C14 models: equal tokens => same pixel partition / "
-    "same grid.  Tied to /repo on every run: random histories (incl. crs == spec, rejected spellings, cache "
+    "same grid.  Growth round (Model/C19Glue.lean, Props/C19Glue.lean): the GLUE between the public entry points and "
+    "those records - xy_/yx_/ixy_/iyx_/wh_/resxy_/resyx_/res_/shape_ with every error branch, XY.shape/wh/xy/yx, "
+    "Shape2d as a sequence (len/iter/index/+/shrink2), == of XY values and of a BoundingBox against any object, "
+    "norm_crs / norm_crs_or_error in every branch incl. the utm texts and their +-100 hemisphere arithmetic, the CRS "
+    "a Geometry gets (clone / GeoJSON default 4326 / explicit), the constructors BoundingBox, GeoBox, GCPGeoBox, "
+    "GCPMapping (CRS defaulting), Tiles, roi_tiles (dispatch on the spelling of how), GeoboxTiles (how / _tiles=), "
+    "GridSpec (defaults and the order in which arguments are refused); theorems: normalisers idempotent, equivalent "
+    "spellings give one record, what is refused is refused with the stated error before anything is built, and END "
+    "TO END GeoBox(shape1, A, spec1) == GeoBox(shape2, A, spec2) / BoundingBox likewise after any two real "
+    "histories whenever the shapes normalise alike and pyproj assigns the specs one system; GeoboxTiles(box, how) "
+    "and GridSpec(crs, shape, res) reach the modelled cores (mk', C14 grid) with nothing in between.  Tied to /repo on every run: random histories (incl. crs == spec, rejected spellings, cache "
     "capacity) replayed in fresh interpreters and diffed against the model, all pairs of near-identical values "
     "per type (1-ulp neighbours, long lists) diffed against the model, constructors diffed exactly, attribute "
     "sets found by introspection, and model-independent oracles on the real objects (pairs/triples, clones, "
-    "read-only use, across interpreters with different hash seeds).",
+    "read-only use, across interpreters with different hash seeds); the glue functions are driven exhaustively over "
+    "small domains of argument forms (numbers of every kind, XY subclasses, tuples and lists of length 0..4, point "
+    "geometries, foreign objects) and diffed against the model, a third of the constructions in the histories go "
+    "through norm_crs, every copy route of every type (copy constructors, clone(), re-construction from public "
+    "accessors, copy, deepcopy, pickle) is judged by oracle and its record diffed against the model, both tiling "
+    "representations are compared with each other, authority:code spellings other than EPSG in several letter cases "
+    "and with leading white space are part of the history alphabet.  Structural facts (attribute inventories, "
+    "private names) are never a verdict: a difference widens the behavioural probing and is noted in the evidence; "
+    "private state is read through public accessors or getattr, a stream whose private state is not readable is "
+    "skipped with a note.",
     "note": "Known findings (not fixable safely): K1 equal CRSs with different hashes, K2 GCPGeoBox equality by "
     "mapping identity, K4 CRS equality depends on the lazily cached EPSG code, K5/F16 pyproj object / WKT text "
     "cache key collision (a pinned test relies on it); each has a _cex theorem and a replay, the matching "
-    "_partial theorem names the excluding hypothesis.  Trusted: pyproj equality/to_epsg/srs as tabulated per "
+    "_partial theorem names the excluding hypothesis; K27 BoundingBox == its 4-tuple with a different hash "
+    "(BBox.eq_tuple_hash_cex).  Trusted: pyproj equality/to_epsg/srs as tabulated per "
     "run, CPython id reuse and GC (modelled adversarially, sampled), dask tokenize = injective print of the "
     "normalised tuple, pickle bytes determined by printed field values.  Out of scope and not modelled: "
     "concurrent CRS construction from several threads (cachetools.cached is used without a lock); non-finite "
     "floats (NaN != NaN breaks reflexivity by IEEE).  NOT mirrored in the Lean model (exercised by oracles only "
     "or belonging to other properties): crs.py CRS.__init__ for CRS-like objects with to_wkt (hashable ones are "
-    "their own cache key), CRS.utm, norm_crs 'utm*' branches, _pick_best_crs, crs_units_per_degree, "
-    "authority/units/dimensions/valid_region, the NaN clean-up wrapper around the transformer; geom.py "
-    "BoundingBox and Geometry operations (C07/C16), Geometry(Geometry) cloning; geobox.py GeoBox/GeoboxTiles "
-    "operations (C02/C12/C16), GeoBox.__rmul__; roi.py tiling look-ups (C04, linked by the composition "
-    "theorems); types.py xy_/yx_/ixy_/iyx_/wh_/resxy_ input forms, XY.map, Shape2d.__add__/shrink2, func2map; "
-    "gridspec.py beyond __init__/__eq__ (C14, linked); gcp.py GCPGeoBox crop/pad/zoom (share the mapping), "
-    "GCPMapping p2w/w2p/approx, from_rio.",
+    "their own cache key; unhashable ones behave as CRS(obj.to_wkt())) and for bool, CRS.utm itself (pyproj's "
+    "database query: its result is an input of the modelled hemisphere arithmetic), _pick_best_crs, "
+    "crs_units_per_degree, authority (observed: history dependent through the lazy _epsg, same root as K4) / "
+    "units/dimensions/valid_region, the NaN clean-up wrapper around the transformer; aliasing of ONE CRS instance "
+    "held by several values (norm_crs hands the instance through: a later .epsg read changes all holders at once; "
+    "the model copies the record); geom.py BoundingBox and Geometry operations (C07/C16), _geojson_to_shapely / "
+    "force_2d (only the CRS decision of Geometry.__init__ is modelled), shapely's own ==; geobox.py GeoBox/"
+    "GeoboxTiles operations (C02/C12/C16), GeoBox.__rmul__; roi.py tiling look-ups (C04, linked by the composition "
+    "theorems); types.py XY.map with an arbitrary function (only map(int) inside shape_), a str / dict / numpy array "
+    "given where a sequence is expected, func2map; gridspec.py beyond __init__/__eq__ (C14, linked); gcp.py "
+    "_points_to_array numerics (only the CRS defaulting), GCPGeoBox crop/pad/zoom (share the mapping), GCPMapping "
+    "p2w/w2p/approx, from_rio.",
     "technique": "Lean 4 proof over hand model + differential correspondence with real code (fresh interpreters "
     "for cache histories)",
     "design_ref": "DESIGN.md §4 C19",
@@ -163,6 +189,10 @@ def gen_history(rng, W, nops: int, nseg: int) -> list:
         # two or three code-less systems in all their spellings: `.epsg` drives them into the looked-up-None state
         for fam in rng.sample(W.codeless, min(len(W.codeless), rng.choice([0, 2, 3]))):
             pool += fam
+        # other authorities than EPSG in several letter cases / with leading white space: every spelling is a
+        # specification of its own
+        for fam in rng.sample(W.authcase, min(len(W.authcase), rng.choice([0, 1, 2]))):
+            pool += fam + fam
         lossy = [("str", n) for n in sorted(W.lossy_names)]
         live: set = set()
         plive: set = set()
@@ -230,7 +260,7 @@ def gen_history(rng, W, nops: int, nseg: int) -> list:
     return ops
 
 
-def gen_churn(rng, W) -> list:
+def gen_churn(rng, W, rounds: int = 2) -> list:
     """allocator churn: request a transformer, drop its source, collect, then build many other systems (CPython
     reuses the freed addresses) and request transformers for them: each must be for the new pair.  This is the
     history on which a bounded / non-pinning `_crs_cache` hands out a stale transformer."""
@@ -242,7 +272,7 @@ def gen_churn(rng, W) -> list:
     for c in codes[2:6]:
         ops.append(["ms", 2, rng.choice([f"EPSG:{c}", f"epsg:{c}"]), sy(c)])
     ops += [["dr", 0], ["dr", 2], ["gc"]]
-    for c in (codes[2:] * 2):
+    for c in (codes[2:] * rounds):
         how = rng.random()
         if how < 0.5:
             ops.append(["mi", 0, c, sy(c)])
@@ -306,9 +336,10 @@ def judge_records(R: Run, W, ops: list, res: dict, fresh: Dict[str, set], hist_i
         if k == "mk":
             sk = json.dumps(rec["spec"])
             fresh.setdefault(sk, {}).setdefault(rec["str"], hist_id)
-            R.oracle(rec["tok"] == rec["str"] and rec["tag"] == "odc.geo.crs.CRS" and rec["hash_is_str"],
+            R.oracle(rec["hash_follows_str"] and rec["tok_follows_str"],
                      "crs-hash-token-follow-str", {**case_base, "spec": rec["spec"]},
-                     f"hash/token of CRS({rec['spec']}) are not those of its string form", trivial=True)
+                     f"CRS({rec['spec']}) and a live instance with the same string form differ in hash / dask token",
+                     trivial=rec["twins"] == 0)
         elif k in ("copy", "pickle"):
             ok = rec["eq"] and rec["str_same"] and rec["hash_same"] and rec["tok_same"]
             key = f"crs-{k}-roundtrip"
@@ -318,6 +349,9 @@ def judge_records(R: Run, W, ops: list, res: dict, fresh: Dict[str, set], hist_i
             R.oracle(ok, key, {**case_base, "spec": rec["spec"]},
                      f"CRS {k} of CRS({rec['spec']}): eq={rec['eq']} str_same={rec['str_same']} "
                      f"hash_same={rec['hash_same']} token_same={rec['tok_same']}")
+        elif k == "norm-same":
+            R.oracle(rec["ok"], "norm_crs-copies-crs-instance", {**case_base, "spec": rec["spec"]},
+                     "norm_crs(crs_instance) did not hand back the instance itself")
         elif k == "epsg":
             R.oracle(rec["got"] == rec["want"], "crs-epsg-differs-from-pyproj", {**case_base, "spec": rec["spec"]},
                      f"CRS({rec['spec']}).epsg is {rec['got']} but pyproj's to_epsg() of the same specification is "
@@ -382,6 +416,8 @@ def part_a(R: Run):
         singles += [sp for i, sp in enumerate(ex) if sp not in ex[:i]]
     for fam in W.codeless[: R.pick(3, len(W.codeless))]:
         singles += fam[: R.pick(2, len(fam))]
+    for fam in W.authcase[: R.pick(1, len(W.authcase))]:
+        singles += fam[: R.pick(3, len(fam))]
     for i, spec in enumerate(singles):
         ops = spec_ops(W, spec, 0, 0) + [["ep", 0], ["pk", 1, 0], ["eq", 0, 1], ["tr", 0, 1, True]]
         jobs.append((f"single-{i}", ops))
@@ -433,29 +469,68 @@ def part_a(R: Run):
                 ["ep", 5], ["eq", 5, 1], ["eq", 5, 3], ["tr", 0, 1, True], ["tr", 4, 3, True]]
         ops += spec_ops(W, fb[2], 4, 0) + [["ep", 4], ["eq", 4, 0], ["eq", 4, 1], ["eq", 4, 2]]
         corpus.append(ops)
+    # authority:code spellings other than EPSG: every letter case / white space variant of a family in one
+        # interpreter, in two opposite orders, the earlier ones dropped and collected before the later are built
+    fams = list(W.authcase)
+    if R.quick and len(fams) > 2:
+        fams = [fams[0]] + rng.sample(fams[1:], 1)
+    for fam in fams:
+        for order in (list(fam), list(reversed(fam))):
+            if not R.quick:
+                rng.shuffle(order)
+            sy = W.info[order[0][1]]["sys"]
+            ops = []
+            for i, (_, n) in enumerate(order):
+                v = i % 3
+                ops += [["ms", v, n, sy], ["ep", v] if i % 2 else ["eq", v, v], ["pk", 3, v], ["eq", 3, v]]
+                if i >= 1:
+                    ops += [["eq", v, (i - 1) % 3], ["tr", v, (i - 1) % 3, True]]
+                if i % 3 == 2:
+                    ops += [["dr", 0], ["dr", 1], ["gc"], ["ms", 0, order[0][1], sy], ["ms", 1, n, sy], ["eq", 0, 1]]
+            ops += [["dr", 0], ["dr", 1], ["dr", 2], ["dr", 3], ["gc"]]
+            for _, n in order:
+                ops += [["ms", 4, n, sy], ["dr", 4]]
+            corpus.append(ops)
     for i, ops in enumerate(corpus):
         jobs.append((f"corpus-{i}", ops))
     for i in range(R.pick(3, 12)):
-        jobs.append((f"churn-{i}", gen_churn(rng, W)))
+        jobs.append((f"churn-{i}", gen_churn(rng, W, R.pick(1, 2))))
     for i in range(R.pick(1, 3)):
         jobs.append((f"capacity-{i}", gen_capacity(rng, W, R.pick(3000, 5000))))
     _, es_big = W.lean_tables()   # the capacity histories added codes (table used for those lines only)
-    nproc = R.pick(28, 400)
+    nproc = R.pick(28, 340)
     for i in range(nproc):
         jobs.append((f"rand-{i}", gen_history(rng, W, R.pick(34, 40), R.pick(3, 4))))
+
+    # a third of the constructions go through the argument normaliser of the value types (norm_crs): for the model
+    # the same operation (normRun of a .build / .same plan IS construct / the instance; Props/C19Glue.lean)
+    for hid, ops in jobs:
+        if not hid.startswith(("rand", "corpus")):
+            continue
+        for i, op in enumerate(ops):
+            if op[0] in ("mi", "ms", "md") and len(op) == 4 and rng.random() < 0.33:
+                ops[i] = op + ["norm"]
+            elif op[0] in ("mp", "mc") and len(op) == 3 and rng.random() < 0.33:
+                ops[i] = op + ["norm"]
 
     with ThreadPoolExecutor(max_workers=min(14, os.cpu_count() or 4)) as ex:
         results = list(ex.map(lambda j: guarded_worker(payload, j[1]), jobs))
 
     fresh: Dict[str, dict] = {}
     hist_ops: Dict[str, list] = {}
+    size_lines: list = []
     for (hid, ops), res in zip(jobs, results):
         hist_ops[hid] = ops
         line = f"c19 hist {ts} {es_big if hid.startswith('capacity') else es} {lean_ops(ops, rng)}"
         if isinstance(res, str):
             R.corr(line, lambda r=res: r, sig="hist|worker-error")
             continue
-        real = ",".join(res["obs"]) + f" cache={res['cache']} tcache={res['tcache']}"
+        # what a history OBSERVES is the correspondence; the sizes of the two caches are internal state: they are
+        # compared with the model's too, but a difference is a note (and whatever it could break - a transformer
+        # for recycled ids - is what the churn / capacity histories probe behaviourally), not a verdict
+        size_lines.append((hid, line, res["cache"], res["tcache"]))
+        line = "c19 histq " + line[len("c19 hist "):]
+        real = ",".join(res["obs"])
         kinds = {o[0] for o in ops}
         sig = "hist|" + ("single" if hid.startswith("single") else "corpus" if hid.startswith("corpus") else
                        "churn" if hid.startswith("churn") else "capacity" if hid.startswith("capacity") else "random") \
@@ -465,6 +540,7 @@ def part_a(R: Run):
         R.count("hist-ops", sum(len(o[2]) if o[0] == "bk" else 1 for o in ops))
         judge_records(R, W, ops, res, fresh, hid)
 
+    soft_cache_sizes(R, size_lines)
     # history-freedom: the string form (hence hash and token) of CRS(spec) is the same in every history
     for sk, seen in sorted(fresh.items()):
         spec = json.loads(sk)
@@ -484,6 +560,36 @@ def part_a(R: Run):
         R.oracle(len(systems) == 1, "pyproj-lossless-specs-differ", {"code": c}, f"systems {systems}", trivial=True)
 
 
+def soft_cache_sizes(R: Run, size_lines: list):
+    """len(_crs_cache) / size of the transformer cache after each history against the model's: evidence, not verdict"""
+    from .common import run_driver
+
+    import re
+
+    if not size_lines or R.proof_break:
+        return
+    try:
+        outs = run_driver(R.prop, [ln for _, ln, _, _ in size_lines])
+    except Exception as e:  # pylint: disable=broad-except
+        A.note(f"cache sizes not compared: {e}")
+        return
+    agree = differ = unread = 0
+    for (hid, _, c, t), out in zip(size_lines, outs):
+        m = re.search(r" cache=(\d+) tcache=(\d+)$", out)
+        if c is None or t is None or m is None:
+            unread += 1
+        elif (int(m.group(1)), int(m.group(2))) == (c, t):
+            agree += 1
+        else:
+            differ += 1
+            A.note(f"history {hid}: caches hold {c} / {t} entries, the model's {m.group(1)} / {m.group(2)} (internal state; "
+                   "not a verdict)") if differ <= 3 else None
+    R.extra["cache_sizes_vs_model"] = {"agree": agree, "differ": differ, "unreadable": unread}
+    R.count("cache-sizes-agree", agree)
+    if unread:
+        A.note("sizes of the CRS construction / transformer caches not readable on this tree: not compared")
+
+
 def guarded_worker(payload, ops):
     try:
         return run_worker(payload, ops)
@@ -495,10 +601,15 @@ def guarded_worker(payload, ops):
 class Enc:
     """reads the fields of real objects into the records of the Lean model"""
 
+    _W = None
+
     def __init__(self):
         from .c19_world import World
 
-        self.W = World([4326, 3857, 3577])
+        # (building the table of pyproj facts takes seconds: one per process, shared by every encoder)
+        if Enc._W is None:
+            Enc._W = World([4326, 3857, 3577])
+        self.W = Enc._W
         self.obj_ids: Dict[int, int] = {}
         self.keep: list = []
         self.sys_cache: Dict[int, int] = {}
@@ -520,7 +631,7 @@ class Enc:
     def crs(self, c) -> str:
         if c is None:
             return "N"
-        p = c._crs
+        p = A.pyproj_of(c)
         if id(p) not in self.obj_ids:
             self.obj_ids[id(p)] = len(self.obj_ids)
             self.keep.append(p)
@@ -531,31 +642,34 @@ class Enc:
             else:
                 self.W.reps.append(p)
                 self.sys_cache[id(p)] = len(self.W.reps) - 1
-        e = c._epsg
+        e = A.epsg_state(c)
         es = "U" if e == 0 and e is not None else ("N" if e is None else str(e))
         return f"{self.obj_ids[id(p)]};{self.sys_cache[id(p)]};{es};{self.W.name(str(c))}"
 
     def xy(self, o) -> str:
-        return f"{type(o).__name__} {self.num(o._xy[0])} {self.num(o._xy[1])}"
+        x, y = A.xy_pair(o)
+        return f"{type(o).__name__} {self.num(x)} {self.num(y)}"
 
     def bbox(self, o) -> str:
-        return f"{self.crs(o._crs)} " + " ".join(self.num(v) for v in o._box)
+        return f"{self.crs(o.crs)} " + " ".join(self.num(v) for v in A.bbox_box(o))
 
     def aff(self, A) -> str:
         return list_s([self.num(v) for v in A[:6]])
 
     def gbox(self, o) -> str:
-        return f"{self.crs(o._crs)} {int(o._shape.y)} {int(o._shape.x)} {self.aff(o._affine)}"
+        sh = A.gbox_shape(o)
+        return f"{self.crs(o.crs)} {int(sh.y)} {int(sh.x)} {self.aff(A.gbox_affine(o))}"
 
     def gcp(self, o) -> str:
-        m = o._mapping
+        m = A.gcp_mapping(o)
         if id(m) not in self.map_ids:
             self.map_ids[id(m)] = len(self.map_ids)
             self.keep.append(m)
-        assert o._crs is m._crs
-        return (f"{self.map_ids[id(m)]} {self.crs(m._crs)} {list_s([self.num(float(v)) for v in m._wld.ravel()])} "
-                f"{list_s([self.num(float(v)) for v in m._pix.ravel()])} {int(o._shape.y)} {int(o._shape.x)} "
-                f"{self.aff(o._affine)}")
+        pix, wld = A.mapping_arrays(m)
+        sh = A.gbox_shape(o)
+        return (f"{self.map_ids[id(m)]} {self.crs(m.crs)} {list_s([self.num(float(v)) for v in wld.ravel()])} "
+                f"{list_s([self.num(float(v)) for v in pix.ravel()])} {int(sh.y)} {int(sh.x)} "
+                f"{self.aff(A.gbox_affine(o))}")
 
     def tiles_args(self, base, tile) -> str:
         return f"{base[0]} {base[1]} {tile[0]} {tile[1]}"
@@ -594,6 +708,17 @@ class Enc:
         return f"{self.crs(o.crs)} {tname(gi)} {list_s(layout)} {list_s(leaves)}"
 
 
+# the attribute inventory the model's records were written against (the same table as Drv `fieldsOf`)
+KNOWN_FIELDS = {
+    "XY": "_xy", "Resolution": "_xy", "Index2d": "_xy", "Shape2d": "_xy",
+    "BoundingBox": "_box,_crs", "Geometry": "crs,geom",
+    "GeoBox": "_affine,_crs,_extent,_lazy_ui,_shape", "GCPGeoBox": "_affine,_crs,_extent,_lazy_ui,_mapping,_shape",
+    "GCPMapping": "_approx_affine,_crs,_p2w,_pix,_w2p,_wld", "Tiles": "_base_shape,_shape,_tile_shape",
+    "VariableSizedTiles": "_offsets", "GeoboxTiles": "_gbox,_tiles", "Bin1D": "direction,origin,sz",
+    "GridSpec": "_shape,_xbin,_ybin,crs,origin,resolution,tile_size", "CRS": "_crs,_epsg,_str",
+}
+
+
 def attr_names(o) -> str:
     names = set(getattr(o, "__dict__", {}).keys())
     for klass in type(o).__mro__:
@@ -612,9 +737,25 @@ def hash_eq(a, b) -> Optional[bool]:
 def same_mapping_content(ga, gb) -> bool:
     import numpy as np
 
-    ma, mb = ga._mapping, gb._mapping
-    return (ma is not mb and np.array_equal(ma._pix, mb._pix) and np.array_equal(ma._wld, mb._wld)
-            and ma._crs == mb._crs and str(ma._crs) == str(mb._crs))
+    try:
+        ma, mb = A.gcp_mapping(ga), A.gcp_mapping(gb)
+    except A.Unavailable:
+        # the mapping object is not reachable: judge by content alone (the class K2 is about)
+        ma, mb = None, None
+    if ma is not None and ma is mb:
+        return False
+    (pa, wa), (pb, wb) = (A.mapping_arrays(m) if m is not None else _gcp_points(g) for m, g in ((ma, ga), (mb, gb)))
+    return bool(np.array_equal(pa, pb) and np.array_equal(wa, wb) and ga.crs == gb.crs and str(ga.crs) == str(gb.crs))
+
+
+def _gcp_points(g):
+    """(pix, wld) of a GCPGeoBox through its public gcps()"""
+    import numpy as np
+
+    pts = g.gcps()
+    a = A.gbox_affine(g)
+    pix = np.asarray([a * (p.col, p.row) for p in pts], dtype="float64")
+    return pix, np.asarray([(p.x, p.y) for p in pts], dtype="float64")
 
 
 def gcp_of(o):
@@ -624,8 +765,8 @@ def gcp_of(o):
 
     if isinstance(o, GCPGeoBox):
         return o
-    if isinstance(o, GeoboxTiles) and isinstance(o._gbox, GCPGeoBox):
-        return o._gbox
+    if isinstance(o, GeoboxTiles) and isinstance(o.base, GCPGeoBox):
+        return o.base
     return None
 
 
@@ -636,9 +777,16 @@ def only_mapping_identity_differs(a, b) -> bool:
     ga, gb = gcp_of(a), gcp_of(b)
     if ga is None or gb is None or type(a) is not type(b):
         return False
-    if isinstance(a, GeoboxTiles) and not a._tiles == b._tiles:
-        return False
-    return (ga._shape == gb._shape and ga._affine == gb._affine and same_mapping_content(ga, gb))
+    if isinstance(a, GeoboxTiles):
+        ta, tb = getattr(a, "_tiles", None), getattr(b, "_tiles", None)
+        try:
+            same_tiling = (ta == tb) if (ta is not None and tb is not None) else (a.shape == b.shape and a.chunks == b.chunks)
+        except Exception:  # pylint: disable=broad-except
+            same_tiling = False
+        if not same_tiling:
+            return False
+    return (A.gbox_shape(ga) == A.gbox_shape(gb) and A.gbox_affine(ga) == A.gbox_affine(gb)
+            and same_mapping_content(ga, gb))
 
 
 def crs_of(o):
@@ -663,9 +811,9 @@ def only_crs_spelling_differs(a, b) -> bool:
     if ca is None or cb is None or not ca == cb or str(ca) == str(cb) or hash(ca) == hash(cb):
         return False
     if isinstance(a, BoundingBox) and isinstance(b, BoundingBox):
-        return hash(a._box) == hash(b._box)
+        return hash(A.bbox_box(a)) == hash(A.bbox_box(b))
     if isinstance(a, GeoBox) and isinstance(b, GeoBox):
-        return hash((*a._shape, a._affine)) == hash((*b._shape, b._affine))
+        return hash((*A.gbox_shape(a), A.gbox_affine(a))) == hash((*A.gbox_shape(b), A.gbox_affine(b)))
     return a is ca and b is cb
 
 
@@ -673,6 +821,52 @@ class Family:
     def __init__(self, name: str, ty: str, items: list, enc, ctor_desc: Optional[list] = None):
         self.name, self.ty, self.items, self.enc = name, ty, items, enc
         self.desc = ctor_desc or [repr(o) for o in items]
+
+
+def copy_routes(o) -> list:
+    """every way the public API offers to get "the same value again" from a value: copy constructors, clone(),
+    re-construction from the value's own public accessors (next to copy / deepcopy / pickle)"""
+    from odc.geo.crs import CRS
+    from odc.geo.gcp import GCPGeoBox
+    from odc.geo.geobox import GeoBox, GeoboxTiles
+    from odc.geo.geom import BoundingBox, Geometry
+    from odc.geo.math import Bin1D
+    from odc.geo.roi import Tiles, VariableSizedTiles
+    from odc.geo.types import XY, Shape2d, ixy_, res_, shape_, xy_, yx_, Index2d, Resolution
+
+    if isinstance(o, Geometry):
+        return [("clone", lambda: o.clone()), ("copy-ctor", lambda: Geometry(o)), ("rewrap", lambda: Geometry(o.geom, o.crs)),
+                ("clone-of-clone", lambda: Geometry(o.clone()).clone())]
+    if isinstance(o, CRS):
+        return [("copy-ctor", lambda: CRS(o)), ("from-str", lambda: CRS(str(o)))]
+    if isinstance(o, BoundingBox):
+        return [("from-accessors", lambda: BoundingBox(o.left, o.bottom, o.right, o.top, o.crs)),
+                ("from-tuple", lambda: BoundingBox(*o.bbox, crs=o.crs)), ("from-iter", lambda: BoundingBox(*o, crs=o.crs))]
+    if isinstance(o, GeoBox):
+        return [("from-accessors", lambda: GeoBox(o.shape, o.affine, o.crs)),
+                ("from-tuple", lambda: GeoBox(tuple(o.shape), o.transform, o.crs))]
+    if isinstance(o, GCPGeoBox):
+        m = getattr(o, "_mapping", None)
+        return [] if m is None else [("from-accessors", lambda: GCPGeoBox(o.shape, m, A.gbox_affine(o)))]
+    if isinstance(o, GeoboxTiles):
+        t = getattr(o, "_tiles", None)
+        return [] if t is None else [("from-parts", lambda: GeoboxTiles(o.base, None, _tiles=t))]
+    if isinstance(o, Tiles):
+        ts = getattr(o, "_tile_shape", None)
+        return [] if ts is None else [("from-accessors", lambda: Tiles(o.base, ts))]
+    if isinstance(o, VariableSizedTiles):
+        return [("from-chunks", lambda: VariableSizedTiles(o.chunks))]
+    if isinstance(o, Bin1D):
+        return [("from-accessors", lambda: Bin1D(o.sz, o.origin, o.direction))]
+    if isinstance(o, Shape2d):
+        return [("shape_", lambda: shape_(o)), ("from-xy", lambda: Shape2d(o.x, o.y)), ("xy_", lambda: xy_(o))]
+    if isinstance(o, Resolution):
+        return [("res_", lambda: res_(o)), ("from-xy", lambda: Resolution(o.x, o.y))]
+    if isinstance(o, Index2d):
+        return [("ixy_", lambda: ixy_(o)), ("from-xy", lambda: Index2d(o.x, o.y)), ("ixy_(tuple)", lambda: ixy_(o.xy))]
+    if isinstance(o, XY):
+        return [("xy_", lambda: xy_(o)), ("xy_(tuple)", lambda: xy_(o.xy)), ("yx_(tuple)", lambda: yx_(o.yx))]
+    return []
 
 
 def judge_family(R: Run, fam: Family, tokenize):
@@ -719,8 +913,9 @@ def judge_family(R: Run, fam: Family, tokenize):
     # copies and pickled clones
     for i, o in enumerate(xs):
         case = {"family": tname, "i": i, "obj": fam.desc[i]}
-        for how, mk in (("pickle", lambda o: pickle.loads(pickle.dumps(o))), ("copy", copy.copy),
-                        ("deepcopy", copy.deepcopy)):
+        routes = [("pickle", lambda o: pickle.loads(pickle.dumps(o))), ("copy", copy.copy), ("deepcopy", copy.deepcopy)]
+        routes += [(name, lambda o, f=f: f()) for name, f in copy_routes(o)]
+        for how, mk in routes:
             try:
                 c = mk(o)
             except Exception as e:  # pylint: disable=broad-except
@@ -728,6 +923,17 @@ def judge_family(R: Run, fam: Family, tokenize):
                 continue
             R.oracle(tokenize(c) == toks[i], f"{tname}-{how}-token", case,
                      f"{how} of {fam.desc[i]} has another dask token")
+            # the same in the model's terms: the fields of the clone, read back one by one, are a record the model
+            # judges against the original's (a copy route that loses / converts a field shows as a wrong record)
+            try:
+                rec_o, rec_c = fam.enc(o), fam.enc(c)
+            except Exception:  # pylint: disable=broad-except
+                rec_o = rec_c = None   # (families encoded by their constructor arguments: originals only)
+            if rec_c is not None:
+                def fc(o=o, c=c, i=i):
+                    h = hash_eq(o, c)
+                    return f"{bool_s(o == c)} {'-' if h is None else bool_s(h)} {bool_s(tokenize(c) == toks[i])}"
+                R.corr(f"c19 pair {fam.ty} {rec_o} {rec_c}", fc, sig=f"clone|{tname}|{how}")
             eq = bool(c == o) and bool(o == c)
             key = f"{tname}-{how}-eq"
             if not eq and how in ("pickle", "deepcopy") and only_mapping_identity_differs(c, o):
@@ -886,10 +1092,11 @@ def build_families(quick: bool, E: "Enc") -> dict:
     _ = m1.p2w, m1.approx   # lazy fields of the mapping
     gcps.append(GCPGeoBox((3, 4), m1))
     def gcp_desc(o):
-        m = o._mapping
-        return (f"{o!r} affine={tuple(o._affine[:6])!r} mapping#{id(m) % 9973} n={len(m._wld)} "
-                f"wld[0]={m._wld[0].tolist()!r} pix[1]={m._pix[min(1, len(m._pix) - 1)].tolist()!r} "
-                f"sum(wld)={float(m._wld.sum())!r}")
+        m = getattr(o, "_mapping", None)
+        pix_, wld_ = A.mapping_arrays(m) if m is not None else _gcp_points(o)
+        return (f"{o!r} affine={tuple(A.gbox_affine(o)[:6])!r} mapping#{id(m) % 9973} n={len(wld_)} "
+                f"wld[0]={wld_[0].tolist()!r} pix[1]={pix_[min(1, len(pix_) - 1)].tolist()!r} "
+                f"sum(wld)={float(wld_.sum())!r}")
 
     fams.append(Family("GCPGeoBox", "gcp", gcps, E.gcp, [gcp_desc(o) for o in gcps]))
 
@@ -914,6 +1121,35 @@ def build_families(quick: bool, E: "Enc") -> dict:
     enc_v = {id(o): f"{list_s(c[0])} {list_s(c[1])}" for o, c in zip(vts, chunk_sets)}
     fams.append(Family("VariableSizedTiles", "vst", vts, lambda o: enc_v[id(o)]))
 
+    # --- both representations of a tiling side by side: regular tilings whose tile is smaller than, equal to and
+    # LARGER than the base (same single chunk, different tile shape), and for each the variable tiling with
+    # exactly its chunks, plus near misses.  `==` across the two classes is part of the relation.
+    mix_items, mix_enc = [], {}
+    for b_, t_ in [((10, 10), (16, 16)), ((10, 10), (10, 10)), ((10, 10), (10, 16)), ((10, 10), (2048, 2048)),
+                   ((10, 10), (5, 5)), ((10, 10), (4, 4)), ((10, 10), (5, 10)), ((9, 10), (5, 5)), ((9, 10), (16, 16)),
+                   ((0, 10), (5, 5)), ((1, 1), (1, 1)), ((1, 1), (7, 7))]:
+        o = Tiles(b_, t_)
+        mix_items.append(o)
+        mix_enc[id(o)] = "T " + E.tiles_args(b_, t_)
+        try:
+            ch = tuple(tuple(int(v) for v in c_) for c_ in o.chunks)
+        except IndexError:
+            continue   # a tiling without tiles has no chunks to ask for (Tiles.chunks looks at tile (0, 0))
+        for ch_ in (ch, (ch[0], ch[1][::-1])) if not quick or t_ != (4, 4) else (ch,):
+            if any(id(x) for x in mix_items if isinstance(x, VariableSizedTiles) and x.chunks == ch_):
+                continue
+            v_ = VariableSizedTiles(ch_)
+            mix_items.append(v_)
+            mix_enc[id(v_)] = f"V {list_s(ch_[0])} {list_s(ch_[1])}"
+    for ch_ in (((10,), (5, 5)), ((4, 6), (5, 5)), ((10,), ()), ((), ()), ((5, 5, 0), (10,))):
+        v_ = VariableSizedTiles(ch_)
+        mix_items.append(v_)
+        mix_enc[id(v_)] = f"V {list_s(ch_[0])} {list_s(ch_[1])}"
+    # (repr() of a tiling without tiles raises IndexError - it formats tile (0, 0): describe by the arguments)
+    fams.append(Family("Tilings", "atiles", mix_items, lambda o: mix_enc[id(o)],
+                       [("Tiles base,tile " if isinstance(o, Tiles) else "VariableSizedTiles chunks ") + mix_enc[id(o)][2:]
+                        for o in mix_items]))
+
     # --- GeoboxTiles (over GeoBox and GCPGeoBox, regular and variable tilings)
     gbt_items, gbt_enc = [], {}
     gb_small = [GeoBox((9, 10), Affine(*A0), crs_vals[1]), GeoBox((10, 10), Affine(*A0), crs_vals[1]),
@@ -924,8 +1160,9 @@ def build_families(quick: bool, E: "Enc") -> dict:
                 GeoBox((10, 10), Affine.translation(up(0.3), 0) * Affine(*A0), crs_vals[1])]
     gc_small = [GCPGeoBox((10, 10), m1), GCPGeoBox((10, 10), m1b), GCPGeoBox((9, 10), m1), GCPGeoBox((10, 10), m2)]
     for g in gb_small + gc_small:
-        ge = ("G " + E.gbox(g)) if isinstance(g, GeoBox) else ("P " + E.gcp(g))
-        hows = [(5, 5), (5, 4), (4, 5), (10, 10), ((5, 5), (5, 5)), ((5, 4), (5, 5)), ((5, 5), (10,))]
+        ge = (lambda g=g: ("G " + E.gbox(g)) if isinstance(g, GeoBox) else ("P " + E.gcp(g)))
+        hows = [(5, 5), (5, 4), (4, 5), (10, 10), ((5, 5), (5, 5)), ((5, 4), (5, 5)), ((5, 5), (10,)),
+                (16, 16), (10, 2048), ((10,), (10,))]
         if tuple(g.shape) != (10, 10):
             hows = [(5, 5), (5, 4), ((5, 4), (5, 5))]
         for how in hows:
@@ -935,8 +1172,8 @@ def build_families(quick: bool, E: "Enc") -> dict:
             else:
                 te = f"T {g.shape[0]} {g.shape[1]} {how[0]} {how[1]}"
             gbt_items.append(o)
-            gbt_enc[id(o)] = f"{ge} {te}"
-    fams.append(Family("GeoboxTiles", "gbt", gbt_items, lambda o: gbt_enc[id(o)]))
+            gbt_enc[id(o)] = (ge, te)
+    fams.append(Family("GeoboxTiles", "gbt", gbt_items, lambda o: f"{gbt_enc[id(o)][0]()} {gbt_enc[id(o)][1]}"))
 
     # --- Bin1D
     bins = [Bin1D(sz, o, d) for sz in (1, 1.0, 2, 0.5) for o in (0, 0.0, -0.0, 1, -1.5) for d in (1, -1)]
@@ -954,8 +1191,9 @@ def build_families(quick: bool, E: "Enc") -> dict:
     def add_gs(c, shape, res, org, fx, fy):
         o = GridSpec(c, shape, res, org, fx, fy)
         oo = o.origin
-        gs_enc[id(o)] = (f"{E.crs(o.crs)} {shape[0]} {shape[1]} {E.num(o.resolution.x)} {E.num(o.resolution.y)} "
-                         f"{E.num(oo.x)} {E.num(oo.y)} {bool_s(fx)} {bool_s(fy)}")
+        gs_enc[id(o)] = lambda o=o, oo=oo, shape=shape, fx=fx, fy=fy: (
+            f"{E.crs(o.crs)} {shape[0]} {shape[1]} {E.num(o.resolution.x)} {E.num(o.resolution.y)} "
+            f"{E.num(oo.x)} {E.num(oo.y)} {bool_s(fx)} {bool_s(fy)}")
         gs_items.append(o)
 
     for c in some_crs[:5]:
@@ -977,7 +1215,7 @@ def build_families(quick: bool, E: "Enc") -> dict:
     for v in ulps:
         add_gs(some_crs[0], (10, 10), res_opts[0], xy_(v, 0.0), False, False)
         add_gs(some_crs[0], (10, 10), res_opts[0], xy_(0.0, v), False, False)
-    fams.append(Family("GridSpec", "gs", gs_items, lambda o: gs_enc[id(o)]))
+    fams.append(Family("GridSpec", "gs", gs_items, lambda o: gs_enc[id(o)]()))
 
     # --- Geometry
     gms = []
@@ -1050,16 +1288,28 @@ def part_b(R: Run):
     B = build_families(R.quick, E)
     fams, gcps = B["fams"], B["gcps"]
 
-    # --- attribute sets by introspection: a field added to a value type cannot escape the model
+    # --- attribute sets by introspection.  An inventory is never a verdict: where it is what the model's record
+    # lists, that is recorded (a tie in the evidence); where it differs (an attribute added, renamed, removed) the
+    # difference is noted and the behavioural probing of that type is widened to every member of its family -
+    # only behaviour (==, hash, token, pickle, copies, across interpreters, after read-only use) can fail.
+    widen = set()
     for o in B["attr_objs"]:
-        R.corr(f"c19 fields {type(o).__name__}", lambda o=o: attr_names(o), sig="fields")
+        tn = type(o).__name__
+        real, known = attr_names(o), KNOWN_FIELDS.get(tn)
+        if real == known:
+            R.corr(f"c19 fields {tn}", lambda real=real: real, sig="fields")
+        else:
+            A.note(f"attribute inventory of {tn} is {real!r}, the model's record lists {known!r}: not a verdict; "
+                   "behavioural probing of the type widened to its whole family")
+            widen.add(tn)
+    R.extra["widened_probing"] = sorted(widen)
 
     # --- correspondence (model vs code, all pairs) and the property oracle (all pairs and triples)
     cap = {"XY": R.pick(4000, None), "Tiles": R.pick(6000, None), "GeoBox": R.pick(3000, None),
            "BoundingBox": R.pick(2500, None), "Geometry": R.pick(6000, None),
            "GeoboxTiles": R.pick(3000, None)}
     for fam in fams:
-        corr_family(R, fam, tokenize, cap.get(fam.name))
+        A.guard(f"pairs of {fam.name} against the model", lambda fam=fam: corr_family(R, fam, tokenize, cap.get(fam.name)))
         judge_family(R, fam, tokenize)
         R.count(f"family-size:{fam.name}", len(fam.items))
 
@@ -1068,13 +1318,14 @@ def part_b(R: Run):
         def f(g=g):
             c = pickle.loads(pickle.dumps(g))
             return f"{bool_s(c == g)} {bool_s(tokenize(c) == tokenize(g))} {bool_s(copy.copy(g) == g)}"
-        R.corr(f"c19 clone gcp 9999 {E.gcp(g)}", f, sig="clone|gcp")
+        A.corr(R, lambda g=g: f"c19 clone gcp 9999 {E.gcp(g)}", f, sig="clone|gcp")
 
     # bare CRS objects as values (in-process; the cache histories are part (a))
     judge_family(R, B["fam_crs"], tokenize)
     # read-only use comes last: it fills whatever the values cache lazily
     for fam in fams + [B["fam_crs"]]:
-        judge_use(R, fam, tokenize, R.pick(16, 60))
+        wide = any(type(o).__name__ in widen for o in fam.items[:3])
+        judge_use(R, fam, tokenize, 2 * len(fam.items) if wide else R.pick(16, 60))
     part_xproc(R)
 
 
@@ -1207,7 +1458,20 @@ def judge_use(R: Run, fam: Family, tokenize, nmax: int):
     def extreme(o) -> bool:
         # GEOS / PROJ calls on 1e308-scale or denormal-scale coordinates may never return (and cannot be
         # interrupted from Python): such members are left to the other oracles
-        for m in re.finditer(r"[fi](-?\d+)(?:/(\d+))?", fam.enc(o)):
+        try:
+            txt = fam.enc(o)
+        except Exception:  # pylint: disable=broad-except
+            txt = None
+        if txt is None:   # no model record on this tree: look at the numbers the value prints
+            for m in re.finditer(r"-?\d+\.?\d*(?:[eE][+-]?\d+)?", fam.desc[fam.items.index(o)]):
+                try:
+                    v = abs(float(m.group(0)))
+                except ValueError:
+                    continue
+                if v > 1e15 or 0 < v < 1e-15:
+                    return True
+            return False
+        for m in re.finditer(r"[fi](-?\d+)(?:/(\d+))?", txt):
             v = abs(Fraction(int(m.group(1)), int(m.group(2) or 1)))
             if v > 10 ** 15 or 0 < v < Fraction(1, 10 ** 15):
                 return True
@@ -1405,16 +1669,20 @@ def part_ctor(R: Run):
         def f(g1=g1, h1=h1, g2=g2, h2=h2):
             a, b = build(g1, h1), build(g2, h2)
             return f"{bool_s(a == b)} {bool_s(tokenize(a) == tokenize(b))}"
-        R.corr(f"c19 ctor gbtctor G {E.gbox(g1)} {enc_how(h1)} G {E.gbox(g2)} {enc_how(h2)}", f,
+        A.corr(R, lambda g1=g1, h1=h1, g2=g2, h2=h2: f"c19 ctor gbtctor G {E.gbox(g1)} {enc_how(h1)} G {E.gbox(g2)} {enc_how(h2)}", f,
                sig="ctor|GeoboxTiles|" + ("var" if isinstance(h1[0], tuple) else "reg") + "-"
                + ("var" if isinstance(h2[0], tuple) else "reg"))
 
 
 def run(R: Run):
-    part_ctor(R)
-    part_b(R)
-    part_a(R)
+    from .c19_glue import part_glue
+
+    A.guard("glue", lambda: part_glue(R))
+    A.guard("constructors", lambda: part_ctor(R))
+    A.guard("value families", lambda: part_b(R))
+    A.guard("CRS histories", lambda: part_a(R))
     R.exhaustive = False
+    R.notes += [n for n in A.NOTES if n not in R.notes]
 
 
 # =========================================================================== replay
@@ -1441,7 +1709,10 @@ def replay(R: Run, rec) -> int:
                 print("str of CRS(%s) differs between the histories: %s" % (sk, [s[:20] for s in seen]))
                 R2.oracle_failures.append({"key": key})
     else:
-        part_b(R2)
+        from .c19_glue import part_glue
+
+        for part in (part_glue, part_ctor, part_b):
+            A.guard("replay", lambda part=part: part(R2))
     still = [f for f in R2.oracle_failures if f["key"] == key]
     print("still failing" if still else "no longer failing")
     return 1 if still else 0
